@@ -13,7 +13,7 @@ SOH = "\x01"
 
 def build_sess():
     """Harness binary + metadata dump (regenerated from the freshly compiled schema classes)."""
-    exe = B.harness("h_sess", runtime=None, schema="utest", extra_srcs=["vclock.cpp"])
+    exe = B.harness("h_sess", runtime=None, schema="utest2c", extra_srcs=["vclock.cpp"])
     meta = exe + ".meta"
     if not os.path.exists(meta):
         env = dict(os.environ, ASAN_OPTIONS="detect_leaks=0")
@@ -107,6 +107,10 @@ def app_fields(rng, mtype, now, complete=True):
             f.append((58, word(rng, 1, 20)))
         if rng.random() < 0.5:
             f.append((45, str(rng.randint(1, 50))))
+    elif mtype in TWOCHAR_TYPES:
+        f = [(11, word(rng))]
+        if rng.random() < 0.4:
+            f.append((58, word(rng, 1, 20)))
     else:
         f = []
     if not complete and f:
@@ -114,7 +118,13 @@ def app_fields(rng, mtype, now, complete=True):
     return f
 
 
-APP_TYPES = ["D", "D", "D", "F", "8", "j"]
+# application messages with two-character MsgTypes whose first character is an admin type or a letter (schema
+# "utest2c", derived from FIX42UTEST.xml on every run): Session::process must send them to the application
+TWOCHAR_TYPES = list(getattr(B, "UTEST2C_MESSAGES", ["A0", "AD", "0X", "1Z", "2B", "3C", "4D", "5E", "DD", "ZZ"]))
+if TWOCHAR_TYPES and not isinstance(TWOCHAR_TYPES[0], str):
+    TWOCHAR_TYPES = [t[1] for t in TWOCHAR_TYPES]
+APP_TYPES = ["D", "D", "D", "F", "8", "j"] + TWOCHAR_TYPES[:]
+IN_APP_TYPES = ["D", "D", "F", "8", "j"] + TWOCHAR_TYPES[:]
 
 
 class Hist:
@@ -281,7 +291,7 @@ def gen_history(rng, role=None, persist=None, nops=None, restart=True, inbound=T
             elif k < 0.40:
                 h.inb("1", [(112, word(rng))])
             elif k < 0.60:
-                t = rng.choice(["D", "F", "8", "j"])
+                t = rng.choice(IN_APP_TYPES)
                 h.inb(t, app_fields(rng, t, h.now))
             elif k < 0.80:
                 b = rng.randint(1, max(1, h.sent + 2))
@@ -345,7 +355,7 @@ def gen_acceptor_logon(rng, reset_y=True):
             elif r < 0.7:
                 h.inb("0", [])
             elif r < 0.85:
-                t = rng.choice(["D", "F"])
+                t = rng.choice(["D", "F"] + TWOCHAR_TYPES)
                 h.inb(t, app_fields(rng, t, h.now))
             else:
                 h.batch([h.app_spec(), spec("0")])
